@@ -18,6 +18,7 @@ import (
 	"math/rand"
 	"os"
 	"reflect"
+	"time"
 
 	"github.com/paulmach/osm"
 	"github.com/paulmach/osm/osmxml"
@@ -288,11 +289,17 @@ func main() {
 	g := &xcodec.Gen{R: rng, Count: w.Count, MaxLen: 3}
 
 	var docs []*doc
+	nsMode := 0
 	mk := func(typ string, val interface{}, tree *xcodec.XNode, class string, plain bool, noise *xcodec.Noise) {
 		if noise != nil {
 			noise.Apply(tree)
 		}
-		l := &xcodec.Layout{R: rng, Plain: plain, Count: w.Count}
+		l := &xcodec.Layout{R: rng, Plain: plain, Count: w.Count, NS: nsMode}
+		l.ApplyNS(tree)
+		if nsMode != 0 {
+			w.Count(fmt.Sprintf("layout:namespace-%d", nsMode))
+			class += fmt.Sprintf("-ns%d", nsMode)
+		}
 		d := &doc{typ: typ, val: val, tree: tree, text: l.Render(tree), class: class}
 		decodeBoth(d)
 		docs = append(docs, d)
@@ -346,6 +353,25 @@ func main() {
 		mk("Change", ch, changeTree(rng, always, ch, w), "corpus-change-id-range", true, nil)
 	}
 
+	// documents in an XML namespace: default namespace on the root, prefixed elements
+	for _, m := range []int{1, 2} {
+		nsMode = m
+		co2 := &osm.OSM{Version: "0.6", Bounds: &osm.Bounds{MinLat: 1, MaxLat: 2}, Nodes: osm.Nodes{n1}, Ways: osm.Ways{w1}}
+		mk("OSM", co2, always.OSM(co2), "corpus-osm", true, nil)
+		cc2 := &osm.Change{Version: "0.6", Create: &osm.OSM{Nodes: osm.Nodes{n1}}, Delete: &osm.OSM{Ways: osm.Ways{w1}}}
+		mk("Change", cc2, changeTree(rng, always, cc2, w), "corpus-change", true, nil)
+		mk("Node", n1, always.Node(n1), "corpus-node", true, nil)
+	}
+	nsMode = 0
+	// first-class zero values: the unix epoch as a timestamp, version 0, empty tag keys
+	ep := time.Unix(0, 0).UTC()
+	ne := &osm.Node{ID: 9, Timestamp: ep, Committed: &ep, Tags: osm.Tags{{Key: "", Value: ""}, {Key: "", Value: "x"}, {Key: "k", Value: "1"}, {Key: "k", Value: "2"}}}
+	mk("Node", ne, always.Node(ne), "corpus-epoch", true, nil)
+	we := &osm.Way{ID: 9, Timestamp: ep, Updates: osm.Updates{{Index: 0, Version: 1, Timestamp: ep}}}
+	mk("Way", we, always.Way(we), "corpus-epoch", true, nil)
+	re := &osm.Relation{ID: 9, Timestamp: ep, Members: osm.Members{{Type: "relation", Ref: 1, Lat: 1, Lon: 2, Orientation: 1, Nodes: osm.WayNodes{{ID: 1}}}}}
+	mk("Relation", re, always.Relation(re), "corpus-epoch", true, nil)
+
 	plan := []struct {
 		typ   string
 		n     int
@@ -368,7 +394,12 @@ func main() {
 			tree := treeOf(sw, p.typ, v)
 			mode := i % 4
 			noise := &xcodec.Noise{R: rng, Attrs: mode >= 1, Elems: mode >= 2, Shuffle: mode >= 3, Count: w.Count}
+			nsMode = 0
+			if i%5 == 4 {
+				nsMode = 1 + (i/5)%2
+			}
 			mk(p.typ, v, tree, p.typ, false, noise)
+			nsMode = 0
 		}
 	}
 
@@ -379,8 +410,42 @@ func main() {
 		}
 		w.Add(c)
 	}
+	// size thresholds: count + hash transport (xcodec/big.go)
+	sizes := xcodec.BigSizesQuick
+	if args.Tier == "thorough" {
+		sizes = xcodec.BigSizesThorough
+	}
+	var firstBig *wire.Case
+	for kind := 1; kind <= xcodec.BigKinds; kind++ {
+		for _, n := range sizes {
+			typ, text := xcodec.BigDocument(kind, n)
+			d := &doc{typ: typ, text: text, class: "big"}
+			decodeBoth(d)
+			c := &wire.Case{Class: fmt.Sprintf("big-%d", kind)}
+			keys := xcodec.BigKeys(kind, d.v2)
+			skeys := xcodec.BigScanKeys(kind, d.scanned)
+			xcodec.EmitBig(c, kind, n, d.uerr == nil, keys, d.serr == nil, skeys)
+			c.Desc = map[string]interface{}{"big_kind": kind, "n": n, "document": "xcodec.BigDocument(kind, n): " + typ + " with n items keyed (i*7919+13) mod 1000003",
+				"decoded_items": len(keys), "scanned_items": len(skeys), "unmarshal_error": fmt.Sprint(d.uerr), "scan_error": fmt.Sprint(d.serr)}
+			exp := xcodec.BigExpected(n)
+			if d.uerr != nil || d.serr != nil || len(keys) != n || len(skeys) != n || xcodec.BigHash(keys) != xcodec.BigHash(exp) || xcodec.BigHash(skeys) != xcodec.BigHash(exp) {
+				c.OracleFail = fmt.Sprintf("document with %d items: whole-document decoder returned %d, scanner %d (or different items)", n, len(keys), len(skeys))
+			}
+			w.Add(c)
+			if firstBig == nil {
+				firstBig = c
+			}
+		}
+	}
 	for _, k := range []int{canValue, canScan, canTree} {
 		w.Add(build(docs[0], k))
+	}
+	{
+		// canary of the big class: one item too few reported
+		c := &wire.Case{Class: "big-canary", Canary: 9, Desc: map[string]interface{}{"canary": "big count"}}
+		exp := xcodec.BigExpected(12)
+		xcodec.EmitBig(c, 1, 12, true, exp[:11], true, exp)
+		w.Add(c)
 	}
 	if err := w.Flush(args.Out, "Verif.C03.Check", 60); err != nil {
 		fmt.Fprintln(os.Stderr, "c03:", err)
